@@ -28,7 +28,14 @@ const (
 var verifKindNames = [...]string{"float", "smallnum", "chartuple", "bytetuple", "itemtuple", "dictentry", "emptytuple",
 	"tuple1", "tuple2", "negtuple", "string", "bytes", "array", "none", "true", "genericset", "dict", "relation"}
 
+// verifConcreteNumbers switches the universe to concrete representative numbers (used by the
+// crash matrix of C10, where math.Pow/math.Mod need concrete operands).
+var verifConcreteNumbers bool
+
 func verifSmallNum() Number {
+	if verifConcreteNumbers {
+		return NewNumber(float64(verifChoice(3) - 1))
+	}
 	return NewNumber(float64(verifNondetIntIn(-2, 2)))
 }
 
@@ -39,6 +46,9 @@ func verifSmallChar() rune {
 func verifGenValue(k int) Value {
 	switch k {
 	case vkFloat:
+		if verifConcreteNumbers {
+			return NewNumber([]float64{0.5, -1e300, 1e19, 1.0 / 3}[verifChoice(4)])
+		}
 		f := verifNondetFloat64()
 		verifAssume(!verifIsNaN(f))
 		return NewNumber(f)
